@@ -1,10 +1,11 @@
 (** Property C10: rejections are justified, correctly classified, and carry the CLI exit contract.
     This file contains only the pinned statements; proofs live in Errors/KindTable.v,
-    Errors/Suggest.v, ParseProofs/ErrorSound.v and ParseProofs/KindSound.v (round 2). *)
+    Errors/Suggest.v, ParseProofs/ErrorSound.v, ParseProofs/KindSound.v (round 2) and ParseProofs/RequiresChain.v
+    (the repair of unroll_arg_requires: kept pre-repair function, witnesses, monotonicity). *)
 From ClapModel Require Import Base.Bytes Base.Machine Base.Utf8.
 From ClapModel Require Import Parse.Cmd Parse.Build Parse.Valid Parse.Matcher Parse.Errors Parse.Validator Parse.Parser.
 From ClapModel Require Import Gen.ErrorTables Errors.KindTable Errors.Suggest ParseProofs.ErrorSound.
-From ClapModel Require Import ParseProofs.Totality ParseProofs.Provenance ParseProofs.KindSound.
+From ClapModel Require Import ParseProofs.Totality ParseProofs.Provenance ParseProofs.KindSound ParseProofs.RequiresChain.
 From Coq Require Import ZArith QArith String List.
 From RecordUpdate Require Import RecordSet.
 Import RecordSetNotations.
@@ -339,7 +340,9 @@ Proof. exact justified_missing. Qed.
 Print Assumptions C10_missing_justified.
 
 (** "a rule asks for x", declaratively: a required argument / group, what a required or present group requires, or
-    the [requires] rules (closed transitively) that hold of the explicit occurrence of a present argument *)
+    [req_by]: the [requires] / [requires_if] rules of an explicitly present argument that hold of ITS explicit
+    occurrence, closed transitively under UNCONDITIONAL [requires] rules (a conditional rule counts only when the
+    argument that carries it is itself explicitly present with a matching value) *)
 Theorem C10_rule_requires_spec : forall c mt x, rule_requires c mt x <->
   (exists a, In a (c_args c) /\ a_required a = true /\ a_id a = x)
   \/ (exists g, In g (c_groups c) /\ g_required g = true /\ (g_id g = x \/ In x (g_requires g)))
@@ -350,15 +353,32 @@ Print Assumptions C10_rule_requires_spec.
 
 Theorem C10_req_by_spec : forall c m root y, req_by c m root y <->
   (exists a p, find_arg c root = Some a /\ In (p, y) (a_requires a) /\ Relations.holds p m)
-  \/ (exists x b p, req_by c m root x /\ find_arg c x = Some b /\ In (p, y) (a_requires b) /\ Relations.holds p m).
+  \/ (exists x b, req_by c m root x /\ find_arg c x = Some b /\ In (PIsPresent, y) (a_requires b)).
 Proof. exact req_by_spec. Qed.
 Print Assumptions C10_req_by_spec.
+
+(** C10's [req_by] and C03's [Relations.ReqBy] (written independently) are the same relation *)
+Theorem C10_req_by_is_C03_ReqBy : forall c m root y, req_by c m root y <-> Relations.ReqBy c root m y.
+Proof. exact req_by_ReqBy. Qed.
+Print Assumptions C10_req_by_is_C03_ReqBy.
 
 (** the requirement set the validator computes contains only ids a rule asks for (converse of C03's direction) *)
 Theorem C10_requirement_set_sound : forall c mt req x,
   gather_requires c mt (required_graph c) = Some req -> In x req -> rule_requires c mt x.
 Proof. exact requirement_set_sound. Qed.
 Print Assumptions C10_requirement_set_sound.
+
+(** with the repaired [unroll_arg_requires] the two inclusions meet: the requirement set the validator computes IS
+    the set of ids a declarative rule asks for, for every command and matcher; and it always exists *)
+Theorem C10_requirement_set_exact : forall c mt req,
+  gather_requires c mt (required_graph c) = Some req -> forall x, In x req <-> rule_requires c mt x.
+Proof. exact requirement_set_exact. Qed.
+Print Assumptions C10_requirement_set_exact.
+
+Theorem C10_requirement_set_exists_exact : forall c mt,
+  exists req, gather_requires c mt (required_graph c) = Some req /\ forall x, In x req <-> rule_requires c mt x.
+Proof. exact requirement_set_exists_exact. Qed.
+Print Assumptions C10_requirement_set_exists_exact.
 
 Theorem C10_missing_rule_sound : forall c mt x,
   validate c mt = VErr EMissingRequiredArgument x ->
@@ -448,13 +468,38 @@ Theorem C10_unbroken_accepted : forall c0 argv, plain c0 = true ->
 Proof. exact unbroken_accepted. Qed.
 Print Assumptions C10_unbroken_accepted.
 
-(** finding (model and crate agree): a conditional [requires_if] rule met along a [requires] chain is tested against
-    the value of the ROOT argument -- `--aa v --bb w` with [a.requires(b)], [b.requires_if("v", y)] is rejected with
-    MissingRequiredArgument(y) although [b] = "w"; with `--aa z` the same line is accepted *)
-Theorem C10_requires_if_chain_refuted :
+(** the finding of round 2, repaired: a conditional [requires_if] rule met along a [requires] chain used to be tested
+    against the value of the ROOT argument.  Witness about the kept PRE-repair function
+    ([unroll_arg_requires_before_fix], ParseProofs/RequiresChain.v): with [a.requires(b)], [b.requires_if("v", y)] and
+    the occurrences the line `--aa v --bb w` produces ([a] = "v", [b] = "w": [b]'s rule does not hold of [b]) it
+    demanded [y]; the repaired function demands [b] only, and [b] as a root demands nothing *)
+Theorem C10_requires_if_chain_before_fix :
+  exists ma mb,
+    entry_of (parse_top quirk_cmd (quirk_line [118] [119])) [97] = Some ma /\
+    entry_of (parse_top quirk_cmd (quirk_line [118] [119])) [98] = Some mb /\
+    check_explicit_m (PEquals [118]) ma = true /\ check_explicit_m (PEquals [118]) mb = false /\
+    unroll_arg_requires_before_fix quirk_cmd (Relations.is_relevant ma) [97] = Some [[98]; [121]] /\
+    unroll_arg_requires quirk_cmd (Relations.is_relevant ma) [97] = Some [[98]] /\
+    unroll_arg_requires quirk_cmd (Relations.is_relevant mb) [98] = Some [].
+Proof. exact requires_if_chain_before_fix. Qed.
+Print Assumptions C10_requires_if_chain_before_fix.
+
+(** the repair only removes demands: whatever the repaired unrolling returns the pre-repair one returned too, for every
+    command, predicate test and root -- the repaired validator never asks for an id the unrepaired one did not *)
+Theorem C10_unroll_fixed_incl_before_fix : forall c func root out out0,
+  unroll_arg_requires c func root = Some out ->
+  unroll_arg_requires_before_fix c func root = Some out0 ->
+  incl out out0.
+Proof. exact unroll_fixed_incl_before_fix. Qed.
+Print Assumptions C10_unroll_fixed_incl_before_fix.
+
+(** the same inputs on the repaired model: `--aa v --bb w` accepted, `--aa z --bb w` accepted,
+    `--aa z --bb v` MissingRequiredArgument(y) (the documented behaviour of [requires_if]) *)
+Theorem C10_requires_if_chain_fixed :
   plain quirk_cmd = true /\ valid quirk_cmd = true /\
-  (exists e, parse_top quirk_cmd [[112]; ex_dd [97; 97]; [118]; ex_dd [98; 98]; [119]] = OErr e
-             /\ e_kind e = EMissingRequiredArgument /\ e_arg e = [121]) /\
-  (exists m, parse_top quirk_cmd [[112]; ex_dd [97; 97]; [122]; ex_dd [98; 98]; [119]] = OOk m).
-Proof. exact requires_if_chain_witness. Qed.
-Print Assumptions C10_requires_if_chain_refuted.
+  (exists m, parse_top quirk_cmd (quirk_line [118] [119]) = OOk m) /\
+  (exists m, parse_top quirk_cmd (quirk_line [122] [119]) = OOk m) /\
+  (exists e, parse_top quirk_cmd (quirk_line [122] [118]) = OErr e
+             /\ e_kind e = EMissingRequiredArgument /\ e_arg e = [121]).
+Proof. exact requires_if_chain_fixed. Qed.
+Print Assumptions C10_requires_if_chain_fixed.
